@@ -134,13 +134,40 @@ pub fn replay(shapes: &[Value], seed: u64, reps: usize, rep: &mut Report, trace:
                     candidates.push(r[.. r.len() - 1].to_string());
                 }
             }
-            // ids the checker expects for closely related names (the hyphen dropped, each side of it alone): plausible ids for this
-            // name that it may not have reported - whichever of them it accepts it must also have reported
-            if name.contains('-') {
+            // every number written in the name (inner, trailing, bracketed year) attached to / removed from a reported id: the ids a
+            // contributor would plausibly try
+            let numbers: Vec<String> = {
+                let mut v = Vec::new();
+                let mut cur = String::new();
+                for ch in name.chars().chain(std::iter::once(' ')) {
+                    if ch.is_ascii_digit() {
+                        cur.push(ch);
+                    } else if !cur.is_empty() {
+                        v.push(std::mem::take(&mut cur));
+                    }
+                }
+                v
+            };
+            for r in reported.clone() {
+                for d in &numbers {
+                    let short = if d.len() > 2 { d[d.len() - 2 ..].to_string() } else { d.clone() };
+                    for c in [format!("{r}{d}"), format!("{d}{r}"), format!("{r}{short}"), r.replacen(d.as_str(), "", 1)] {
+                        if !c.is_empty() && !candidates.contains(&c) {
+                            candidates.push(c);
+                        }
+                    }
+                }
+            }
+            // ids the checker expects for closely related names (the hyphen dropped, each side of it alone, the bracket dropped):
+            // plausible ids for this name that it may not have reported - whichever of them it accepts it must also have reported
+            if name.contains('-') || name.contains('(') {
                 let mut related: Vec<String> = vec![name.replace(" - ", " ").replace('-', " ")];
                 if let Some((a, b)) = name.split_once('-') {
                     related.push(a.trim().to_string());
                     related.push(b.trim().to_string());
+                }
+                if let Some((a, _)) = name.split_once(" (") {
+                    related.push(a.trim().to_string());
                 }
                 for rn in related {
                     if rn.trim().is_empty() || !rn.chars().any(|c| c.is_alphabetic()) {
